@@ -79,6 +79,7 @@ def write(ctx, mod, groups, wall, nviol):
             'failed': [o['name'] for o in obl if o['status'] != 'SUCCESS'],
             'known_finding': g.result.get('known_finding'),
             'undecided': g.result.get('undecided'),
+            'skipped': g.result.get('skipped'),
         })
         if len(samples) < 6 and obl:
             posts = [o for o in obl if 'postcondition' in o['name'] or 'assertion' in o['name']] or obl
